@@ -50,6 +50,11 @@ class _Canon(ast.NodeTransformer):
         name = f.id if isinstance(f, ast.Name) else None
         if name in ("float",) and len(node.args) == 1 and not node.keywords:
             return node.args[0]
+        # value-level identities: a copy of x has the value of x (aliasing rules read the raw tree, not this form)
+        if isinstance(f, ast.Attribute) and f.attr == "copy" and not node.args and not node.keywords:
+            return f.value
+        if name in ("copy", "asarray", "asanyarray") and len(node.args) == 1 and not node.keywords:
+            return node.args[0]
         if name in COMMUTATIVE and not node.keywords:
             node.args = sorted(node.args, key=ast.unparse)
         if name in ("arange", "zeros", "ones", "empty", "linspace", "full"):
@@ -196,4 +201,25 @@ def single_assignments(fnode, allow_mutated=False):
                 mutated.add(b.id)
         if isinstance(n, ast.Call) and isinstance(n.func, ast.Attribute) and n.func.attr in ("append", "extend", "insert", "pop", "sort", "update", "fill") and isinstance(n.func.value, ast.Name):
             mutated.add(n.func.value.id)
-    return {k: v for k, v in vals.items() if counts.get(k) == 1 and (allow_mutated or k not in mutated)}
+    out = {k: v for k, v in vals.items() if counts.get(k) == 1 and (allow_mutated or k not in mutated)}
+    # a local with two bindings, one of which only reads back a cache this function fills with that very local
+    # (`w = getattr(self, "_w", None)` / `w = self._w` ... `w = <computation>; self._w = w`), denotes the computation
+    for k, c in counts.items():
+        if c != 2 or k in out or (k in mutated and not allow_mutated):
+            continue
+        defs = [n for n in ast.walk(fnode) if isinstance(n, ast.Assign) and len(n.targets) == 1 and isinstance(n.targets[0], ast.Name) and n.targets[0].id == k]
+        if len(defs) != 2:
+            continue
+        kept = {t.attr for n in ast.walk(fnode) if isinstance(n, ast.Assign) and isinstance(n.value, ast.Name) and n.value.id == k for t in n.targets if isinstance(t, ast.Attribute) and isinstance(t.value, ast.Name) and t.value.id == "self"}
+
+        def cache_read(v):
+            if isinstance(v, ast.Attribute) and isinstance(v.value, ast.Name) and v.value.id == "self":
+                return v.attr
+            if isinstance(v, ast.Call) and isinstance(v.func, ast.Name) and v.func.id == "getattr" and len(v.args) >= 2 and isinstance(v.args[0], ast.Name) and v.args[0].id == "self" and isinstance(v.args[1], ast.Constant):
+                return v.args[1].value
+            return None
+
+        reads = [d for d in defs if cache_read(d.value) in kept]
+        if len(reads) == 1:
+            out[k] = next(d for d in defs if d is not reads[0]).value
+    return out
